@@ -198,6 +198,17 @@ func vfPayloadQueueTrace(base uint32, seed uint64, nops int) []string {
 }
 
 func vfRunShiftBatch(spec *vfSpec, res *vfRes) {
+	// the component models are run here at bases that cross the wraps: what they find is a dependence on the
+	// absolute sequence numbers
+	res.mu.Lock()
+	res.rewrite = func(prop, key string) (string, string) {
+		if strings.HasPrefix(key, "rq/") || strings.HasPrefix(key, "rpq/") {
+			return "C16", "component/" + key
+		}
+
+		return prop, key
+	}
+	res.mu.Unlock()
 	r := vfNewRand(spec.Seed)
 	n := int(spec.x("seqs", 200))
 	for i := 0; i < n; i++ {
